@@ -95,7 +95,8 @@ func c16Build(v c16Vec, placement int) *c16Decl {
 		return &decl.Opt{Field: field, Short: short, Long: long, Desc: desc, Type: decl.TString}
 	}
 	top := &decl.Cmd{Name: "app", SubOptional: true, Desc: "", Opts: []*decl.Opt{by("Top", "t", "toplong", "TOPDESC"),
-		{Field: "Cb", Long: "cbopt", Desc: "CBODESC", Type: decl.TFuncS}}} // a callback option: it has no default to show
+		{Field: "Cb", Long: "cbopt", Desc: "CBODESC", Type: decl.TFuncS}, // a callback option: it has no default to show
+		by("One", "", "y", "ONECHARDESC "+c16LongWord)}} // a long name of a single character; its description has a word longer than any description column
 	sub := &decl.Group{Field: "SubG", Name: "SUBGNAME", Namespace: "sgns", EnvNamespace: "SGENV", Opts: []*decl.Opt{by("SubO", "", "subopt", "SUBODESC")}}
 	hid := &decl.Group{Field: "HidG", Name: "HIDGNAME", Hidden: true, Opts: []*decl.Opt{by("HidO", "", "hidgopt", "HIDGODESC")}}
 	top.Groups = []*decl.Group{sub, hid}
@@ -140,6 +141,9 @@ func c16Build(v c16Vec, placement int) *c16Decl {
 	d := (&decl.Decl{Top: top, Options: flags.HelpFlag}).Finish()
 	return &c16Decl{d: d, u: u}
 }
+
+var c16LongWord = strings.Repeat("w", 150) + "ENDW"
+var c16HyphenBreak = regexp.MustCompile("-\n\\s*")
 
 var c16Chains = [][]string{{}, {"add", "ca"}, {"add", "ca", "deep"}, {"rm"}, {"hidcmd"}}
 
@@ -376,7 +380,7 @@ func init() {
 			return
 		}
 		if gen == 2 {
-			for _, m := range []string{"toplong", "TOPDESC", "subopt", "SUBODESC", "addopt", "ADDODESC", "cgopt", "deepopt", "rmopt", "ADDDESC", "ADDALX", "DEEPDESC", "RMALX", "RMDESC", "barecmd", "BARECDESC", "leafcmd", "LEAFCDESC", "leafopt", "LEAFODESC", "grouponly", "goopt", "GOODESC"} {
+			for _, m := range []string{"toplong", "TOPDESC", `\-\-y`, "ONECHARDESC", "subopt", "SUBODESC", "addopt", "ADDODESC", "cgopt", "deepopt", "rmopt", "ADDDESC", "ADDALX", "DEEPDESC", "RMALX", "RMDESC", "barecmd", "BARECDESC", "leafcmd", "LEAFCDESC", "leafopt", "LEAFODESC", "grouponly", "goopt", "GOODESC"} {
 				if !has(m) {
 					c.Fail("visible-item-missing|man|bystander", m)
 					return
@@ -390,7 +394,12 @@ func init() {
 			}
 			return
 		}
-		want := []string{"toplong", "TOPDESC", "sgns.subopt", "SUBODESC", "PARGADESC", "PARGA"}
+		// a word that had to be broken is complete once the hyphen breaks are taken out again
+		if !strings.Contains(c16HyphenBreak.ReplaceAllString(text, ""), c16LongWord) {
+			c.Fail("visible-item-missing|help|over-long-word-of-a-description", map[string]interface{}{"text": text})
+			return
+		}
+		want := []string{"toplong", "TOPDESC", "--y=", "ONECHARDESC", "sgns.subopt", "SUBODESC", "PARGADESC", "PARGA"}
 		wantNot := []string{"hidgopt", "HIDGODESC", "HIDGNAME", "hidcmd", "HIDCDESC", "hcopt"}
 		switch ci {
 		case 0:
@@ -428,7 +437,7 @@ func init() {
 		Rule: "option under test with every attribute vector {short only, long only, both} x description? x default {none, tag, tag+mask, tag+mask '-', the tag '-' itself} x env? x choices? x value-name? x hidden? (spelled yes / False / NO) x required? (768 vectors; defaults, masks and descriptions contain per-cent signs; without a default also as a bool-kinded Unmarshaler type) " +
 			"x 10 placements (parser group, namespaced subgroup with env-namespace, hidden subgroup, command, command's group, hidden command, sub-subcommand, sibling command, subgroup nested in the env-namespaced subgroup without / with its own env-namespace) x 5 active chains (none, add, add deep, rm, the hidden command) " +
 			"x {WriteHelp after a parse that selects the chain, the ErrHelp text of --help at that chain, WriteManPage} (+ the ErrHelp text requested after an occurrence of the option with a value, which must not show up; + a variant where one command is hidden and another un-hidden through the public Hidden field after a first help/man rendering on the same parser); every string is a unique marker; oracle: a visible option's markers (names, value name, choices, description, default or mask, env) are present and its description sits on its row, " +
-			"nothing of a hidden option / hidden group / hidden or inactive command appears, a masked default's real value never appears; the fixed part of the declaration (bystander options, described positionals, commands with aliases, hidden command and group, a command without options of its own whose subcommand has one, a described command with a multi-byte name, a func(string) option with a description) is checked on every leaf; " +
+			"nothing of a hidden option / hidden group / hidden or inactive command appears, a masked default's real value never appears; the fixed part of the declaration (bystander options, one of them with a long name of a single character and a 154-character word in its description (complete after undoing the hyphen breaks), described positionals, commands with aliases, hidden command and group, a command without options of its own whose subcommand has one, a described command with a multi-byte name, a func(string) option with a description) is checked on every leaf; " +
 			"distinct = distinct (generator, visible?, placement, chain, markers present)",
 		Assumptions:  []string{"not demanded of the man page: choices, positional arguments, env beside a default (man.go never rendered them)", "help of an active hidden command is not defined by the statement and is skipped"},
 		RequiredHits: []string{"visible|help", "invisible|help", "visible|man", "invisible|man", "value-given-before-help"},
